@@ -13,9 +13,9 @@ prop("C13",
      rule="every (size,src,dest-prefix) triple, every (string,idx,cnt) triple and every string over a 7-symbol alphabet up to the "
           "length bound is executed once on the real function; a case is non-trivial when the call changes its buffer, "
           "truncates, or returns a slice (i.e. is not a refusal/no-op); cases are distinct by construction",
-     bounds={"quick": "L=4", "thorough": "L=9"},
+     bounds={"quick": "L=6", "thorough": "L=9"},
      runs=[dict(name="h_bounded", sources=["harness/h_bounded.c"], profile="asan",
-                args={"quick": ["--L=4"], "thorough": ["--L=9"]})],
+                args={"quick": ["--L=6"], "thorough": ["--L=9"]})],
      deadline={"quick": 120, "thorough": 1200})
 
 
@@ -53,9 +53,9 @@ prop("C02",
           "with elements a,b,c up to the size cap, dedup by the label sequence (holes included); every op from every reachable sequence, every query probed in "
           "every new state (count, get, index, find, contains, to_array, iterator, dup, show); the same model decides all three classes, so they are pairwise interchangeable; "
           "non-trivial = distinct reachable sequences",
-     bounds={"quick": "size cap 4, fixpoint", "thorough": "size cap 6, fixpoint"},
+     bounds={"quick": "size cap 5, fixpoint", "thorough": "size cap 8, fixpoint"},
      runs=[dict(name="h_list", sources=["harness/h_list.c"], profile="asan",
-                args={"quick": ["--S=4"], "thorough": ["--S=6"]})],
+                args={"quick": ["--S=5"], "thorough": ["--S=8"]})],
      deadline={"quick": 200, "thorough": 3000})
 
 
@@ -64,8 +64,8 @@ prop("C03",
      technique="explicit-state BFS over map-interface histories on the three real map classes vs a sorted reference dictionary; caller objects mutated and deleted after each set; storage-order and link invariants",
      rule="E1 per class (array, linked_list, dlinked_list map): BFS over histories of {set(k,v), set(pair(k,v),NULL), remove(k)} over the key/value alphabet to a fixpoint "
           "(every dictionary over the key set is reached); dedup by dictionary; every op from every dictionary; every query probed in every new state; non-trivial = distinct dictionaries",
-     bounds={"quick": "3 keys x 2 values, fixpoint (27 dictionaries/class)", "thorough": "6 keys x 2 values, fixpoint (729 dictionaries/class)"},
-     runs=[dict(name="h_map", sources=["harness/h_map.c"], profile="asan", args={"quick": ["--keys=3"], "thorough": ["--keys=6"]})],
+     bounds={"quick": "4 keys x 2 values, fixpoint (81 dictionaries/class)", "thorough": "7 keys x 2 values, fixpoint (2187 dictionaries/class)"},
+     runs=[dict(name="h_map", sources=["harness/h_map.c"], profile="asan", args={"quick": ["--keys=4"], "thorough": ["--keys=7"]})],
      deadline={"quick": 200, "thorough": 3000})
 
 prop("C04",
@@ -73,9 +73,9 @@ prop("C04",
      technique="explicit-state BFS over vector-interface histories on the three real vector classes vs a reference multiset with identities; sortedness/permutation/link invariants",
      rule="E1 per class: BFS over histories of {insert(x), remove(p)} with duplicate, minimum, maximum and absent probes to a fixpoint of the capped multiset space; "
           "dedup by multiplicity vector; every op from every multiset; find/contains/iterator/to_array/dup probed in every new state; non-trivial = distinct multisets",
-     bounds={"quick": "3 values, multiplicity<=2, size<=4, fixpoint", "thorough": "4 values, multiplicity<=3, size<=7, fixpoint"},
+     bounds={"quick": "3 values, multiplicity<=2, size<=5, fixpoint", "thorough": "5 values, multiplicity<=3, size<=9, fixpoint"},
      runs=[dict(name="h_vector", sources=["harness/h_vector.c"], profile="asan",
-                args={"quick": ["--values=3", "--mult=2", "--S=4"], "thorough": ["--values=4", "--mult=3", "--S=7"]})],
+                args={"quick": ["--values=3", "--mult=2", "--S=5"], "thorough": ["--values=5", "--mult=3", "--S=9"]})],
      deadline={"quick": 200, "thorough": 3000})
 
 
@@ -85,8 +85,8 @@ prop("C12",
      rule="every string of length <= N over {a,b,space,comma,dquote,squote,backslash,tab} is split with three delimiter sets, tokenised by the tok class (twice), and run through "
           "num_words/get_word/get_pword for every index 0..num_words+2, each compared with the reference grammar; plus all join/split round trips of <= 4 plain tokens; "
           "non-trivial = inputs with a quote, a backslash or more than one token (counted per delimiter set)",
-     bounds={"quick": "N=5 (37449 strings)", "thorough": "N=8 (19.2 M strings)"},
-     runs=[dict(name="h_tokens", sources=["harness/h_tokens.c"], profile="asan", args={"quick": ["--N=5"], "thorough": ["--N=8"]})],
+     bounds={"quick": "N=6 (299593 strings)", "thorough": "N=8 (19.2 M strings)"},
+     runs=[dict(name="h_tokens", sources=["harness/h_tokens.c"], profile="asan", args={"quick": ["--N=6"], "thorough": ["--N=8"]})],
      deadline={"quick": 200, "thorough": 3000})
 
 
@@ -155,10 +155,10 @@ prop("C19",
           "({complete,1 byte,half,EINTR} on read, +EAGAIN on write) is executed on a real UNIX-domain connection and the received bytes compared with the payload; "
           "lifecycle: BFS over {new, open, open with socket/bind/listen/connect failure, accept, failed accept, set_nbio, send, recv, close, dup, del} with the invariant fd>=0 <=> owns an open descriptor "
           "and a descriptor census after deleting everything; non-trivial = every transfer case (each expands into its schedule tree) + distinct lifecycle states",
-     bounds={"quick": "k=4 calls, <=2 deviations; lifecycle depth 5", "thorough": "k=6 calls, <=3 deviations; lifecycle depth 7"},
+     bounds={"quick": "k=5 calls, <=2 deviations; lifecycle depth 6", "thorough": "k=7 calls, <=3 deviations; lifecycle depth 9"},
      runs=[dict(name="h_sock", sources=["harness/h_sock.c"], profile="asan",
                 wraps=["read", "write", "select", "socket", "bind", "listen", "connect", "accept"],
-                args={"quick": ["--k=4", "--dev=2", "--depth=5"], "thorough": ["--k=6", "--dev=3", "--depth=7"]})],
+                args={"quick": ["--k=5", "--dev=2", "--depth=6"], "thorough": ["--k=7", "--dev=3", "--depth=9"]})],
      deadline={"quick": 240, "thorough": 3000})
 
 
@@ -183,9 +183,9 @@ prop("C08",
           "(pre-parse pass, then normal pass) and every target variable, guard word, handler call and the final argv are compared with the assignment computed from the items; "
           "part B: every vector of <= N hostile tokens x 4 settings: terminates (<= 1000 diagnostics), ASan clean, foreign bits and guard words untouched, argv a NULL-terminated sub-sequence; "
           "non-trivial = valid item sequences, and hostile vectors that raise the bad-option count",
-     bounds={"quick": "K=2 items (42 spellings), N=3 tokens (22 tokens)", "thorough": "K=3, N=4"},
+     bounds={"quick": "K=3 items (42 spellings), N=4 tokens (22 tokens)", "thorough": "K=4, N=5"},
      runs=[dict(name="h_opt", sources=["harness/h_opt.c"], profile="asan", wraps=["libast_print_error", "libast_print_warning"],
-                args={"quick": ["--K=2", "--N=3"], "thorough": ["--K=3", "--N=4"]})],
+                args={"quick": ["--K=3", "--N=4"], "thorough": ["--K=4", "--N=5"]})],
      deadline={"quick": 240, "thorough": 3000})
 
 
@@ -196,8 +196,8 @@ prop("C09",
      rule="every file of <= N lines over 16 line kinds is written to disk and parsed by the real spifconf_parse; the recorded handler calls (context, begin/end/text, text, state received) must equal the trace of the reference reading, "
           "diagnostics must match, files opened == files closed, file stack back at 0, context stack at the number of unclosed blocks, index < capacity at every handler call; "
           "depth sweep: every d in 1..255 balanced and unbalanced; include chains 1..30; non-trivial = files with a block or an include, all sweep cases",
-     bounds={"quick": "N=3 (4369 files) + 510 depth cases + 30 include chains", "thorough": "N=5 (1.1 M files) + sweeps"},
-     runs=[dict(name="h_conf", sources=["harness/h_conf.c"], profile="asan", exclude=["conf.c"], wraps=_CONFWRAPS, args={"quick": ["--N=3"], "thorough": ["--N=5"]})],
+     bounds={"quick": "N=4 (69905 files) + 510 depth cases + 30 include chains", "thorough": "N=5 (1.1 M files) + sweeps"},
+     runs=[dict(name="h_conf", sources=["harness/h_conf.c"], profile="asan", exclude=["conf.c"], wraps=_CONFWRAPS, args={"quick": ["--N=4"], "thorough": ["--N=5"]})],
      deadline={"quick": 240, "thorough": 3000})
 
 
